@@ -26,10 +26,13 @@ def case_strategy():
     def s(draw):
         rc = draw(geo.geometry(max_nx=5, max_ny=5, max_nz=5, shipped=True, ops=True, with_surfaces=True,
                                with_wells=False, header=True, max_shipped_cols=30, relayer=True))
+        if draw(st.integers(0, 5)) == 0:
+            # a vertical shift that is not exactly representable: layer boundaries and the surfaces lying on them must move together
+            rc['ops'] = rc.get('ops', []) + [{'op': 'translate', 'shift': [0.0, 0.0, draw(st.sampled_from([0.3, 2.3, -4.9, 7.7, 0.001, 1e-3 + 1e3]))]}]
         then = draw(st.sampled_from([None, None, 'translate', 'translate', 'rotate', 'same']))
         if then == 'translate':
             then = ['translate', [draw(st.sampled_from([0.0, 12.5, -300.0])), draw(st.sampled_from([0.0, 40.0])),
-                                  draw(st.sampled_from([0.0, 7.25, -55.0, 120.0]))]]
+                                  draw(st.sampled_from([0.0, 7.25, -55.0, 120.0, 0.3, 2.3, -4.9, 7.7, 0.001]))]]
         elif then == 'rotate': then = ['rotate', draw(st.sampled_from([30.0, 90.0, -45.0]))]
         elif then: then = [then]
         return {'rc': rc, 'blockmap': draw(st.sampled_from([None, None, 'all', 'some', 'swap', 'cycle', 'chain'])), 'then': then}
